@@ -88,7 +88,7 @@ func c16Scenario() *explore.Scenario {
 			cfgID := []byte{0x00, 0x01, 0x7f, 0xff}[x.Choose("configid", 4)]
 			suiteDraw := byte(x.Choose("suite", 2))
 			lenDraw := byte(x.Choose("payloadlen", 4))
-			hrrKind := x.Choose("srv.hrr", 3) // 0 none, 1 HelloRetryRequest, 2 HelloRetryRequest carrying a cookie
+			hrrKind := x.Choose("srv.hrr", 4) // 0 none, 1 HelloRetryRequest, 2 HelloRetryRequest carrying a cookie, 3 HelloRetryRequest carrying an 8-byte encrypted_client_hello confirmation (what an ECH-aware server sends)
 			hrr := hrrKind != 0
 			// a sibling connection (another GREASE-ECH parrot with its own Config) builds its ClientHello
 			// while this one is waiting for the server's first message, as a client dialling in parallel does
@@ -134,7 +134,7 @@ func c16Scenario() *explore.Scenario {
 				var unhook func()
 				hs := peer.Run(cfg, n.ID, scfg, peer.Opts{Echo: true, Prepare: c16Prepare(oddRandom, conn%3), WrapClient: func(e *peer.Endpoint) { ce = e },
 					OnConns: func(u *tls.UConn, s *tls.Conn) {
-						if hrrKind == 2 || sibling {
+						if hrrKind == 2 || hrrKind == 3 || sibling {
 							hk := &connHooks{}
 							if hrrKind == 2 {
 								hk.addHRRCookie = rep(0xC0, 32)
@@ -155,6 +155,12 @@ func c16Scenario() *explore.Scenario {
 										b.BuildHandshakeState()
 									}()
 									pe.Close()
+								}
+								if hrrKind == 3 && t == 2 && isHRR(d) {
+									if sp, ok := parseServerHello(d); ok {
+										sp.exts = append(sp.exts, shExt{0xfe0d, rep(0x3e, 8)})
+										return sp.build()
+									}
 								}
 								return baseTransform(hk, t, d)
 							}
@@ -215,6 +221,13 @@ func c16Scenario() *explore.Scenario {
 					r.Violate("C16|payload-length", "%s conn %d: payload of %d bytes, candidates %v (+16 tag)", what, conn, len(o.Payload), g.CandidatePayloadLens)
 				}
 				if hrr {
+					if len(msgs) != 2 && hrrKind == 3 && hs.CErr != nil {
+						// a client that only sent GREASE may refuse such a retry altogether: then there is no
+						// second hello to judge
+						r.Count("ech_in_hrr_refused", 1)
+						views = append(views, v)
+						continue
+					}
 					if len(msgs) != 2 {
 						r.Violate("INFRA|c16-hrr", "%s conn %d: expected two hellos, got %d (client %v)", what, conn, len(msgs), hs.CErr)
 						return
